@@ -2,10 +2,11 @@
 
    The ledger model (Ledger/Core.v, C01..C18) is over Z: every theorem there holds at any magnitude.  What remains is the
    boundary where an amount is TEXT: JSON bodies, SQL literals / numeric results, the `volumes` composite, JSON responses.
-   FULL STATEMENT (refuted by the unchanged code, see C36_refuted_float):
-     forall n : Z, every path that carries the amount n from a request body into the ledger and back carries exactly n.
-   Proved: for ALL n the text codecs are exact and so are postings amounts, v1 monetary variables and string-form amounts;
-   the JSON-NUMBER form of a monetary variable in vm.ScriptV1.ToCore (v2, bulk) is exact only below 2^53. *)
+   STATEMENT: forall n : Z, every path that carries the amount n from a request body into the ledger and back carries exactly n.
+   Proved for ALL n: the text codecs, postings amounts, v1 monetary variables, and the string AND JSON-number forms of script
+   variables of the v2 / bulk API.  History: before `fix: script variables keep JSON numbers as exact text` (fixes/09) vm.ScriptV1
+   decoded numbers into float64 and rendered them with int(): exact only below 2^53 (2^53+1 -> 2^53, >= 2^63 -> -2^63); the
+   model follows the repaired code (json.Number), a tree without the repair breaks the apidec correspondence and the monitors. *)
 From Coq Require Import List ZArith String Bool.
 From LV Require Import Base.JsonTree Ledger.Api Ledger.ApiProofs.
 Import ListNotations.
@@ -40,35 +41,38 @@ Proof. exact v1_monetary_exact. Qed.
 Print Assumptions C36_v1_monetary_exact.
 
 (* ScriptV1 (v2, bulk) variables with the amount as a decimal string: exact for every n *)
-Theorem C36_scriptv1_string_exact : forall m a n,
-  jfield "asset" m = Some (AJStr a) -> jfield "amount" m = Some (AJStr (zstr n)) -> scriptv1_var (AJObj m) = Some (a ++ " " ++ zstr n).
-Proof. intros m a n. exact (scriptv1_string_exact m a (zstr n)). Qed.
+Theorem C36_scriptv1_string_exact : forall spell m a n,
+  jfield "asset" m = Some (AJStr a) -> jfield "amount" m = Some (AJStr (zstr n)) -> scriptv1_var spell (AJObj m) = Some (a ++ " " ++ zstr n).
+Proof. intros sp m a n. exact (scriptv1_string_exact sp m a (zstr n)). Qed.
 Print Assumptions C36_scriptv1_string_exact.
 
-(* partial: the JSON-number form is exact below 2^53 *)
-Theorem C36_scriptv1_number_partial : forall m a n,
-  Z.abs n < 2 ^ 53 ->
-  jfield "asset" m = Some (AJStr a) -> jfield "amount" m = Some (AJNum n None) -> scriptv1_var (AJObj m) = Some (a ++ " " ++ zstr n).
-Proof. exact scriptv1_number_exact_below_2_53. Qed.
-Print Assumptions C36_scriptv1_number_partial.
+(* ... and with the amount as a JSON number, and bare numeric variables: exact for every n (json.Number, no float64) *)
+Theorem C36_scriptv1_number_exact : forall spell m a n,
+  jfield "asset" m = Some (AJStr a) -> jfield "amount" m = Some (AJNum n None) -> scriptv1_var spell (AJObj m) = Some (a ++ " " ++ zstr n).
+Proof. exact scriptv1_number_exact. Qed.
+Print Assumptions C36_scriptv1_number_exact.
 
-(* refutation of the full statement: 2^53+1 as a JSON number becomes 2^53 (float64 rounding); 2^64+1 becomes -2^63
-   (int() of an out-of-range float64 on amd64); replayed on the real code through POST /v2/{ledger}/transactions *)
-Theorem C36_refuted_float :
-  exists n, 0 <= n /\
-    scriptv1_var (AJObj [("asset", AJStr "USD"); ("amount", AJNum n None)]) <> Some ("USD " ++ zstr n) /\
-    decode_scriptv1 (AJObj [("plain", AJStr "p"); ("vars", AJObj [("x", AJObj [("asset", AJStr "USD"); ("amount", AJNum n None)])])])
-      = Ok {| s_plain := "p"; s_template := ""; s_vars := [("x", "USD 9007199254740992")] |}.
-Proof. exists 9007199254740993. split; [discriminate|]. split; [vm_compute; discriminate|vm_compute; reflexivity]. Qed.
-Print Assumptions C36_refuted_float.
+Theorem C36_scriptv1_bare_number_exact : forall spell n, scriptv1_var spell (AJNum n None) = Some (zstr n).
+Proof. exact scriptv1_bare_number_exact. Qed.
+Print Assumptions C36_scriptv1_bare_number_exact.
 
-(* non-vacuity / magnitude: amounts above 2^64 through each exact path, and the two lossy outcomes *)
+(* an integer written with an exponent or a zero fraction (1e3, 100.0 = 1000e-1 ...) is rendered as the integer it denotes *)
+Theorem C36_number_text_integer : forall spell m e, 0 <= e <= 999 -> number_text spell m (Some e) = zstr (m * 10 ^ e).
+Proof. exact number_text_integer. Qed.
+Print Assumptions C36_number_text_integer.
+
+(* non-vacuity / magnitude: amounts above 2^64 through each path; the former lossy inputs are exact; non-integers pass verbatim *)
 Example C36_example :
+  let sp := fun (m e : Z) => "<literal>" in
   zparse (zstr (2 ^ 64 + 1)) = Some 18446744073709551617 /\
   volumes_value (10 ^ 30, 2 ^ 64 + 1) = "(1000000000000000000000000000000, 18446744073709551617)" /\
   volumes_scan (volumes_value (1, 2)) = None /\           (* Scan is NOT the inverse of Value without PostgreSQL's normalisation *)
   v1_var (AJObj [("asset", AJStr "USD"); ("amount", AJNum (2 ^ 64 + 1) None)]) = Ok "USD 18446744073709551617" /\
-  scriptv1_var (AJObj [("asset", AJStr "USD"); ("amount", AJNum (2 ^ 53 - 1) None)]) = Some "USD 9007199254740991" /\
-  scriptv1_var (AJObj [("asset", AJStr "USD"); ("amount", AJNum (2 ^ 64 + 1) None)]) = Some "USD -9223372036854775808" /\
-  scriptv1_var (AJNum (2 ^ 64 + 1) None) = Some "1.8446744073709552e+19".
-Proof. repeat split; vm_compute; reflexivity. Qed.
+  scriptv1_var sp (AJObj [("asset", AJStr "USD"); ("amount", AJNum (2 ^ 53 + 1) None)]) = Some "USD 9007199254740993" /\
+  scriptv1_var sp (AJObj [("asset", AJStr "USD"); ("amount", AJNum (2 ^ 64 + 1) None)]) = Some "USD 18446744073709551617" /\
+  scriptv1_var sp (AJNum (2 ^ 64 + 1) None) = Some "18446744073709551617" /\
+  scriptv1_var sp (AJObj [("asset", AJStr "USD"); ("amount", AJNum 1000 (Some (-1)))]) = Some "USD 100" /\     (* 100.0 *)
+  scriptv1_var sp (AJObj [("asset", AJStr "USD"); ("amount", AJNum 15 (Some (-1)))]) = Some "USD <literal>" /\  (* 1.5: verbatim, the machine rejects it *)
+  decode_scriptv1 sp (AJObj [("plain", AJStr "p"); ("vars", AJObj [("x", AJObj [("asset", AJStr "USD"); ("amount", AJNum 9007199254740993 None)])])])
+    = Ok {| s_plain := "p"; s_template := ""; s_vars := [("x", "USD 9007199254740993")] |}.
+Proof. cbv zeta. repeat split; vm_compute; reflexivity. Qed.
